@@ -8,20 +8,27 @@
 (*       once (fail-safe path) or by a goroutine sleeping the 30 s stale-version TTL           *)
 (*   HAProxy's admin API (haproxy.cfg): set-map / del-map on endpoints.map, proc.manage_all.   *)
 (*                                                                                           *)
-(* A configuration is [ex, all]: the set of expressions of its endpoints / filters (abstract  *)
-(* identities here) and whether it asks for manage-all.  Traffic of expression e is matched   *)
-(* by the engine iff e is in the CURRENT configuration (everything when all).                 *)
+(* A configuration is [mult, all]: for every expression (abstract identities here) how many   *)
+(* registrations of it the configuration carries - one per enabled plugin of an endpoint, one  *)
+(* per filter group sharing URL and method - and whether it asks for manage-all.  The proxy's  *)
+(* endpoints.map is a SET: n PUTs of one expression leave one entry, one DELETE removes it.    *)
+(* Traffic of expression e is matched by the engine iff e is in the CURRENT configuration      *)
+(* (mult[e] > 0; everything when all).                                                         *)
 (*                                                                                           *)
 (* Deviation named by a constant:                                                             *)
 (*   DiffByValue  TRUE: the expressions to remove are those of the previous configuration     *)
 (*                that the new one does not contain (repaired code); FALSE: lo.Difference     *)
 (*                over *HAProxyEndpointData pointers - every previous expression (before the  *)
 (*                fix: an endpoint that STAYS is unmanaged by the reload)                     *)
+(*   MultisetDiff TRUE: the removal set is computed pairwise per registration (an expression   *)
+(*                kept with FEWER registrations is deleted); FALSE: as sets (repaired code)    *)
 (* Recorded finding tolerated by KF_Rapid: a removal scheduled by an OLDER reload fires after  *)
 (* a later reload registered the expression again (reload within the TTL).                    *)
 EXTENDS Integers, Sequences, FiniteSets, TLC
 
 CONSTANTS Exprs,        \* abstract expressions
+          MaxMult,      \* registrations of one expression in one configuration: 0..MaxMult
+          MultisetDiff,
           MaxLoads,
           DiffByValue,
           GlobalUnmanage, \* TRUE: policies mode (manage-all is withdrawn when the new configuration has no global plugin);
@@ -38,8 +45,9 @@ VARIABLES cur,      \* current configuration [ex, all]
           hist      \* observable history (for generation)
 vars == <<cur, map, mall, timers, nloads, stale, staleAll, hist>>
 
-Configs == [ex : SUBSET Exprs, all : BOOLEAN]
-NoConfig == [ex |-> {}, all |-> FALSE]
+Configs == [mult : [Exprs -> 0..MaxMult], all : BOOLEAN]
+NoConfig == [mult |-> [e \in Exprs |-> 0], all |-> FALSE]
+Ex(c) == {e \in Exprs : c.mult[e] > 0}
 
 Init == /\ cur = NoConfig /\ map = {} /\ mall = FALSE /\ timers = <<>> /\ nloads = 0
         /\ stale = {} /\ staleAll = FALSE /\ hist = <<>>
@@ -48,16 +56,19 @@ Init == /\ cur = NoConfig /\ map = {} /\ mall = FALSE /\ timers = <<>> /\ nloads
 ApplyRemoval(t, m, a, st, sta) ==
     [map   |-> m \ t.dels,
      mall  |-> IF t.global THEN FALSE ELSE a,
-     stale |-> IF t.k < nloads THEN st \cup (t.dels \cap cur.ex) ELSE st,
+     stale |-> IF t.k < nloads THEN st \cup (t.dels \cap Ex(cur)) ELSE st,
      staleAll |-> IF t.global /\ t.k < nloads /\ cur.all THEN TRUE ELSE sta]
 
 Load(c, imm) ==
     /\ nloads < MaxLoads
     /\ LET first   == nloads = 0
            \* updateHAProxyEndpoints: manage-all short-circuits the per-expression PUTs
-           map1    == IF c.all THEN map ELSE map \cup c.ex
+           map1    == IF c.all THEN map ELSE map \cup Ex(c)
            mall1   == mall \/ c.all
-           dels    == IF first THEN {} ELSE IF DiffByValue THEN cur.ex \ c.ex ELSE cur.ex
+           dels    == IF first THEN {}
+                      ELSE IF ~DiffByValue THEN Ex(cur)
+                      ELSE IF MultisetDiff THEN {e \in Exprs : cur.mult[e] > c.mult[e]}
+                      ELSE Ex(cur) \ Ex(c)
            glob    == GlobalUnmanage /\ ~first /\ cur.all /\ ~c.all
            k       == nloads + 1
        IN /\ nloads' = k
@@ -70,9 +81,9 @@ Load(c, imm) ==
                   \* two goroutines: the global one is started first; none for an empty removal set
                   /\ timers' = timers \o (IF glob THEN <<[k |-> k, dels |-> {}, global |-> TRUE]>> ELSE <<>>)
                                       \o (IF dels # {} THEN <<[k |-> k, dels |-> dels, global |-> FALSE]>> ELSE <<>>)
-          /\ stale' = stale \ (IF c.all THEN {} ELSE c.ex)      \* registered again
+          /\ stale' = stale \ (IF c.all THEN {} ELSE Ex(c))      \* registered again
           /\ staleAll' = IF c.all THEN FALSE ELSE staleAll
-          /\ hist' = Append(hist, [op |-> "load", ex |-> c.ex, all |-> c.all, imm |-> imm])
+          /\ hist' = Append(hist, [op |-> "load", mult |-> c.mult, all |-> c.all, imm |-> imm])
 
 \* one sleeper wakes up (exhaustive check: any order among the pending ones)
 FireOne == \E i \in 1..Len(timers) :
@@ -102,11 +113,11 @@ GenSpec == Init /\ [][GenNext]_vars
 
 \* NoBypass on the CURRENT proxy state: what the engine matches is managed
 Managed == /\ cur.all => mall \/ (KF_Rapid /\ staleAll)
-           /\ \A e \in cur.ex : e \in map \/ mall \/ (KF_Rapid /\ (e \in stale \/ (cur.all /\ staleAll)))
+           /\ \A e \in Ex(cur) : e \in map \/ mall \/ (KF_Rapid /\ (e \in stale \/ (cur.all /\ staleAll)))
 
 View == <<cur, map, mall, timers, nloads, stale, staleAll>>
 
 \* witnesses (expected to be violated)
 NeverStale    == stale = {}
-NeverRemoved  == ~(nloads > 0 /\ \E e \in Exprs : e \notin map /\ e \notin cur.ex /\ nloads >= 2)
+NeverRemoved  == ~(nloads > 0 /\ \E e \in Exprs : e \notin map /\ e \notin Ex(cur) /\ nloads >= 2)
 ================================================================================
